@@ -111,10 +111,15 @@ class NFSym:
         self.ev = ev
         self.syms = {}
         self.memo = {}
+        self.units = set()      # symbols standing for sign(x): s**2 == 1
 
     def sym(self, key):
         if key not in self.syms:
-            self.syms[key] = sympy.Symbol('b%d' % len(self.syms), positive=True)
+            if key.startswith('numpy.sign('):
+                self.syms[key] = sympy.Symbol('b%d' % len(self.syms), real=True)
+                self.units.add(self.syms[key])
+            else:
+                self.syms[key] = sympy.Symbol('b%d' % len(self.syms), positive=True)
         return self.syms[key]
 
     def _ground(self, e):
@@ -132,6 +137,9 @@ class NFSym:
             v = sympy.Integer(0)
             for t in self.ev.sums[k].terms:
                 v += self.mono(t)
+        elif k.startswith('num(') and k.endswith(')'):
+            q = Fraction(k[4:-1])               # a rational constant kept as a base by NFEval.power
+            v = sympy.Rational(q.numerator, q.denominator)
         else:
             v = self.sym(k)
         self.memo[k] = v
@@ -141,11 +149,68 @@ class NFSym:
         v = sympy.Rational(m.coef.numerator, m.coef.denominator)
         for k, e in m.f.items():
             q = self._ground(e)
-            if q is not None:
+            if q is not None and k.startswith('numpy.sign(') and q.is_integer:
+                v *= self.atom(k) ** (int(q) % 2)      # sign(x)**2 == 1 (x != 0)
+            elif q is not None:
                 v *= self.atom(k) ** q
             else:
-                v *= self.sym('%s^(%s)' % (k, e))
+                v *= self.sympow(k, e)
         return v
+
+    def sympow(self, k, e):
+        """atom ** e for a parameter-dependent exponent e = N/D (reduced fraction of polynomials in
+        the parameters).  N = q*D + rem (polynomial division, fixed monomial order), so
+        e = q + rem/D canonically and additively; every monomial c*m of q contributes
+        base**c (m = 1: an ordinary rational power) or T(f, m)**c, every monomial c*m of rem
+        contributes T(f, m/D)**c, where the base is first factored into irreducible factors
+        f_i**m_i (sums are brought to one fraction) and T(f, shape) is ONE opaque positive symbol
+        per (irreducible factor, exponent shape).  Exponents therefore add correctly across
+        products: x**(g-1) / x**g = 1/x,  t**(a/D) * t**(b/D) = t**((a+b)/D), and
+        (1 + 2/(g-1))**k == ((g+1)/(g-1))**k."""
+        base = self.atom(k)
+        try:
+            quo, rem = e.numer.div(e.denom)
+            dtxt = str(e.denom)
+            parts = []          # (rational coefficient, shape key or None for a plain rational power)
+            for poly, den in ((quo, '1'), (rem, dtxt)):
+                if poly == 0:
+                    continue
+                for monom, coeff in poly.terms():
+                    c = sympy.Rational(int(coeff.numerator), int(coeff.denominator))
+                    if den == '1' and not any(monom):
+                        parts.append((c, None))
+                    elif den != '1' and e.denom.is_ground:
+                        d0 = e.denom.LC
+                        c = c / sympy.Rational(int(d0.numerator), int(d0.denominator))
+                        parts.append((c, None) if not any(monom) else (c, '%s/1' % (monom,)))
+                    else:
+                        parts.append((c, '%s/%s' % (monom, den)))
+        except Exception:
+            return self.sym('%s^(%s)' % (k, e))
+        factors = []            # (sympy expr of an irreducible factor or a number, multiplicity incl. sign)
+        num, den = sympy.fraction(sympy.together(base))
+        for poly, sign in ((num, 1), (den, -1)):
+            poly = sympy.expand(poly)
+            if poly == 1:
+                continue
+            if poly.is_number:
+                factors.append((poly, sign))
+                continue
+            cont, fl = sympy.factor_list(poly)
+            if cont != 1:
+                if cont.is_number and cont < 0:
+                    return self.sym('%s^(%s)' % (k, e))
+                factors.append((cont, sign))
+            for f, m in fl:
+                factors.append((sympy.expand(f), sign * m))
+        out = sympy.Integer(1)
+        for c, shape in parts:
+            if shape is None:
+                out *= base ** c
+            else:
+                for f, m in factors:
+                    out *= self.sym('pow[%s|%s]' % (sympy.srepr(f), shape)) ** (c * m)
+        return out
 
     def conv(self, x):
         from .nf import Mono, Sum
